@@ -22,4 +22,5 @@ def run(ctx, rep):
     from ..rules import objmodel as _om
 
     _om.rule_converters_use_object_model(ctx, rep, "C19-R9")
+    textparse.rule_json_escape_table(ctx, rep, "C19-R10")
     rep.undecided += ["parse(stringify(v)) structurally equal to v for all values, canonical form of stringify(parse(t)) (round-trip properties)"]
